@@ -178,7 +178,9 @@ def pregen_c15(tier, seed, generate):
 def jobs_c16(tier, seed):
     js = [trc("impls", "C16", "dbg", "impls"), trc("impls", "C16", "rel", "impls"), trc("impls", "C16", "asan", "impls"),
           miri("impls-sample", "tracerec", ["--prop", "C16", "--table", "impls", "--shardmult", 2 if tier == Q else 1])]
-    keys = ["none", "nostd"] if tier == Q else [f"c{b}{s}" for b in range(32) for s in "sn"]
+    # thorough: every single feature, every all-but-one set, none and all, each with and without std
+    combos = sorted({0, 31} | {1 << i for i in range(5)} | {31 ^ (1 << i) for i in range(5)})
+    keys = ["none", "nostd"] if tier == Q else [f"c{b}{s}" for b in combos for s in "sn"]
     for k in keys:
         js.append(trc("impls", "C16", "dbg", "impls", features=k, shards=1))
     return js
@@ -278,7 +280,7 @@ CHECKS = {
     ),
     "C10": dict(
         level="exploration",
-        jobs=jobs_simple("C10", profile="metrics"),
+        jobs=jobs_simple("C10", profile="metrics", matrix=["c10"]),
         rule="metrics-heavy random histories (barriers on non-tracing kinds, adjust_debt); total_gc_count vs allocator registry, debt sign/monotonicity/exactness after every call; non-trivial = touches of objects while not Sleeping or adjust_debt checks",
         floors={"metrics_checks": 100_000},
         assumptions=COMMON_ASSUME,
@@ -339,7 +341,7 @@ CHECKS = {
         level="exploration",
         jobs=jobs_c16,
         custom=probes("C16"),
-        rule="table over every provided Collect impl x pointer kind (Gc / GcWeak) x type-parameter position (keys, values, Ok/Err, each of 16 tuple positions, header vs element) x sizes {0,1,2,7,33} (wrapped VecDeque, spilled SmallVec, SlotMap with a removed slot); recorded multiset = inserted multiset with the right strength; NEEDS_TRACE for pointer-bearing and pointer-free instantiations; end-to-end survival of one strong and one weak target per container; feature sets {all five optional, none, no-std} (all 64 combinations in thorough); non-trivial = case holds at least one pointer",
+        rule="table over every provided Collect impl x pointer kind (Gc / GcWeak) x type-parameter position (keys, values, Ok/Err, each of 16 tuple positions, header vs element) x sizes {0,1,2,7,33} (wrapped VecDeque, spilled SmallVec, SlotMap with a removed slot); recorded multiset = inserted multiset with the right strength; NEEDS_TRACE for pointer-bearing and pointer-free instantiations; end-to-end survival of one strong and one weak target per container; feature sets {all five optional, none, no-std} (24 sets in thorough: none, all, each single feature, each all-but-one, with and without std); non-trivial = case holds at least one pointer",
         floors={"trace_comparisons": 1_500, "needs_trace_checks": 150},
         assumptions=COMMON_ASSUME,
     ),
